@@ -1126,6 +1126,12 @@ func scenC07(g *Gen, dir string) ([]*Op, func(e *Env, i int, op *Op, obs []strin
 	if r.Chance(1, 2) {
 		s2 := g.signKeys()
 		s2.Groups = []uint32{1}
+		if len(groups[1]) > 1 && r.Chance(1, 3) {
+			// a co-signature over a strict subset of the group's objects
+			s2.Groups = nil
+			s2.ObjSets = [][]uint32{groups[1][:1+r.Intn(len(groups[1])-1)]}
+			g.count("mix:subset-cosignature")
+		}
 		ops = append(ops, &Op{Kind: "sign", S: s2})
 		signers = append(signers, s2.keyList()...)
 		g.count("mix:second-signature")
@@ -1435,12 +1441,14 @@ func scenC16(g *Gen, dir string) ([]*Op, func(e *Env, i int, op *Op, obs []strin
 		allKeys = append(allKeys, 100+k)
 	}
 	base := trustFor(allKeys)
-	modes := []VOpts{base, base, base, base, base, base}
+	modes := []VOpts{base, base, base, base, base, base, base}
 	modes[1].Legacy = true
 	modes[2].LegacyAll = true
 	modes[3].Legacy, modes[3].Groups = true, []uint32{1}
 	modes[4].Legacy, modes[4].Objects = true, []uint32{uint32(1 + r.Intn(3))}
 	modes[5].Groups = []uint32{1}
+	// a group and one of its objects named in the same legacy request: two tasks, each with its own signatures
+	modes[6].Legacy, modes[6].Groups, modes[6].Objects = true, []uint32{1}, []uint32{uint32(1 + r.Intn(2))}
 	first := len(ops)
 	for _, m := range modes {
 		ops = append(ops, &Op{Kind: "verify", V: m})
